@@ -20,17 +20,26 @@ using namespace covfie;
 using arr_t = backend::array<vector::float3>;
 using str_t = backend::strided<vector::size3, arr_t>;
 
+template <typename Ix, std::size_t N, std::size_t I>
+void mask1(const char * ixname)
+{
+#ifdef HAVE_BMI2
+    // the mask the pdep path uses for coordinate scalar type Ix (first template argument of morton_pdep_mask)
+    std::printf(
+        "VERIF_MORTON_MASK_N%zu_I%zu_%s=0x%016" PRIx64 "ULL\n",
+        N,
+        I,
+        ixname,
+        (uint64_t)backend::morton_pdep_mask<Ix, std::size_t, N>::template get_mask<I>::value
+    );
+#endif
+}
 template <std::size_t N, std::size_t I>
 void mask()
 {
-#ifdef HAVE_BMI2
-    std::printf(
-        "VERIF_MORTON_MASK_N%zu_I%zu=0x%016" PRIx64 "ULL\n",
-        N,
-        I,
-        (uint64_t)backend::morton_pdep_mask<std::size_t, std::size_t, N>::template get_mask<I>::value
-    );
-#endif
+    mask1<std::size_t, N, I>("size_t");
+    mask1<unsigned, N, I>("unsigned");
+    mask1<int, N, I>("int");
 }
 
 int main()
